@@ -126,36 +126,22 @@ def absCall (hop : Bool) (m : Msg) : Call → Msg
   | .updateOption n v => Spec.applyEdit (hop && Spec.hopApplies m.code n m.opts) m (.update n v)
   | .removeOption n => Spec.applyEdit false m (.remove n)
 
-/-- is `c` a Proxy-Uri / Proxy-Scheme call on a request without Hop-Limit (where libcoap inserts Hop-Limit first)? -/
-def proxyCall (m : Msg) : Call → Bool
-  | .addOption n _ => Spec.hopApplies m.code n m.opts
-  | .insertOption n _ => Spec.hopApplies m.code n m.opts
-  | .updateOption n _ => Spec.hopApplies m.code n m.opts && !Spec.hasOpt n m.opts
-  | _ => false
-
-/-- all abstract results for the calls, each tagged `true` if it needed the OPEN FINDING's semantics
-(hop-limit-left-by-refused-proxy: a refused Proxy call still inserts Hop-Limit) somewhere on the way.
-Untagged results are the admissible ones: D14 refused = unchanged, D13 Hop-Limit may accompany an accepted Proxy
-option.  Alternatives only multiply at Proxy calls while no Hop-Limit is present, so they stay few. -/
-def absRun : List (Msg × Bool) → List Call → List Nat → List (Msg × Bool)
+/-- all admissible abstract results for the calls: D14 refused = unchanged, D13 Hop-Limit may accompany an
+accepted Proxy-Uri / Proxy-Scheme option.  Alternatives only multiply at Proxy calls while no Hop-Limit is present,
+so they stay few. -/
+def absRun : List Msg → List Call → List Nat → List Msg
   | ms, c :: cs, rc :: rcs =>
-    let next :=
-      if rc = 0 then
-        (ms.flatMap fun (m, t) =>
-          if proxyCall m c then [(m, t), ({ m with opts := Spec.insertStable 16 [16] m.opts }, true)] else [(m, t)])
-      else (ms.flatMap fun (m, t) => [(absCall true m c, t), (absCall false m c, t)])
+    let next := if rc = 0 then ms else ms.flatMap fun m => [absCall true m c, absCall false m c]
     absRun next.eraseDups cs rcs
   | ms, _, _ => ms
 
 def finishS (p : Proto) (m : Msg) (calls : List Call) (rcs : List Nat) : String :=
-  let alts := (absRun [(m, false)] calls rcs).filter fun a => decide (Spec.WF p a.1)
-  -- an alternative reachable without the finding shadows the same message reached with it
-  let alts := alts.filter fun a => !(a.2 && alts.any fun b => !b.2 && b.1 == a.1)
+  let alts := (absRun [m] calls rcs).filter fun a => decide (Spec.WF p a)
   let pat := String.ofList (rcs.map fun rc => if rc = 0 then '0' else '1')
   if alts.isEmpty || alts.length > 16 then "skip" else
   "rcs=" ++ (if pat.isEmpty then "-" else pat) ++ " " ++
-    String.intercalate " || " (alts.map fun a => (if a.2 then "leftover " else "") ++
-      "msg=" ++ showMsgD (Spec.onWire p a.1) ++ " bytes=" ++ dg (Spec.encode p a.1))
+    String.intercalate " || " (alts.map fun a =>
+      "msg=" ++ showMsgD (Spec.onWire p a) ++ " bytes=" ++ dg (Spec.encode p a))
 
 def hdrLen (p : Proto) (wire : Bytes) : Nat :=
   match p, wire with
